@@ -52,7 +52,7 @@ def families(tier):
     critC = "{%s, %s}" % (fparams(T2, xmax="<<9,9>>", ymax="<<9,9>>"), fparams(T2, xmax="<<3,7>>", ymax="<<9,9>>", minPts="<<6,3>>", ign="TRUE"))
     pfC = "{[targets |-> %s, thr |-> <<3,3>>]}" % T2
     fam["C_thresholds"] = dict(base, CfgSet="{%s, %s}" % (cfgC1, cfgC2), CritSet=critC, PfSet=pfC, PtsSet="{2,5,8}", UuidSet="{TRUE,FALSE}",
-                               AttrSet="{TRUE,FALSE}", Confs="{10,40,70}", Sample="3000" if big else "600")
+                               AttrSet="{TRUE,FALSE}", Confs="{10,20,50,70}", Sample="3000" if big else "600")
     # D: unknown is a target, allow-any policy, three labels
     cfgD = cfg_rec(T3, "ALLOW_ANY", "<<>>", fparams(T3, xmax="<<9,9,9>>", ymax="<<9,9,9>>", minPts="<<0,0,0>>"), cd="<<3,3,3>>", pd="<<3,3,5>>")
     critD = "{%s}" % fparams(T3, xmax="<<3,5,7>>", ymax="<<9,9,9>>")
